@@ -11,6 +11,7 @@ func init() {
 			"PV-ONCE/PV-CONST: one Write per iteration, buf[:0], TrimRight(V, \"\\r\\n\") + \"\\n\", write error returned",
 			"GUARD: colors/resetColor/containerColors only under opts.color; container under opts.container; RFC3339Nano(time.Unix(0, T)) under opts.timestamp",
 			"PV-FIRST: colour chosen on first sighting only; ERR-PROP: other result kinds are errors; MO: no map order reaches the writer",
+			"the engine keeps every entry of a stream (groupEntries) and frames of any size are read whole (decoder rules): what the renderer prints is every returned record",
 		},
 		NotDecided: []string{"terminal behaviour", "isatty / NO_COLOR detection"},
 		Rules: func(r *Run) {
